@@ -512,6 +512,7 @@ def _drop_local_annotations(tree: ast.Module) -> None:
     for x in ast.walk(tree):
         if isinstance(x, ast.FunctionDef):
             _flatten_chains(x)
+            _size_snapshot_loops(x)
             _drop_length_shadows(x)
             _inline_flag_locals(x)
             memo.dissolve(x)
@@ -983,6 +984,17 @@ def _cursor_frames_to_lists(fn: ast.FunctionDef) -> bool:
         if isinstance(p_, ast.AugAssign) and p_.target is n and isinstance(p_.op, ast.Add) and isinstance(p_.value, ast.Constant) and p_.value.value == 1:
             plan.append(("step", p_))
             continue
+        if isinstance(p_, ast.Assign) and len(p_.targets) == 1 and p_.targets[0] is n and isinstance(p_.value, ast.Constant) \
+                and p_.value.value == 0:
+            # the cursor is put back to the start where the list itself is (re)computed: a fresh list, nothing consumed yet
+            par_ = parents.get(id(p_))
+            blk_ = next((getattr(par_, fld) for fld in ("body", "orelse", "finalbody")
+                         if isinstance(getattr(par_, fld, None), list) and p_ in getattr(par_, fld)), None)
+            if blk_ is not None and any(isinstance(x, ast.Assign) and len(x.targets) == 1 and isinstance(x.targets[0], ast.Name)
+                                        and x.targets[0].id == L for x in blk_):
+                plan.append(("reset", p_, blk_))
+                continue
+            return False
         if isinstance(p_, ast.Tuple) and len(p_.elts) == 3 and p_.elts[2] is n:
             plan.append(("push-same", p_))
             continue
@@ -1045,6 +1057,9 @@ def _cursor_frames_to_lists(fn: ast.FunctionDef) -> bool:
             node.ops = [ast.Gt() if nonempty else ast.Eq()]
             node.comparators = [ast.copy_location(ast.Constant(0), node)]
     for kind, node, *more in plan:
+        if kind == "reset":
+            more[0][more[0].index(node)] = ast.copy_location(ast.Pass(), node)
+    for kind, node, *more in plan:
         if kind == "step":
             par = parents.get(id(node))
             for fld in ("body", "orelse", "finalbody"):
@@ -1090,6 +1105,92 @@ def _cursor_frames_to_lists(fn: ast.FunctionDef) -> bool:
             rv.value = ast.Constant(True)
     ast.fix_missing_locations(fn)
     return True
+
+
+def _size_snapshot_loops(fn: ast.FunctionDef) -> int:
+    """`while True: n0 = len(R); BODY; if len(R) == n0: break`  ->  `again = True; while again: again = False; BODY'` with
+    `again = True` right after every statement of BODY that puts something into R. Progress measured by the size of the
+    result is progress signalled where the result grows."""
+    count = 0
+
+    def grows(st: ast.stmt, R: str) -> bool:
+        if isinstance(st, ast.Assign) and len(st.targets) == 1 and isinstance(st.targets[0], ast.Subscript) \
+                and isinstance(st.targets[0].value, ast.Name) and st.targets[0].value.id == R:
+            return True
+        if isinstance(st, ast.Expr) and isinstance(st.value, ast.Call) and isinstance(st.value.func, ast.Attribute) \
+                and isinstance(st.value.func.value, ast.Name) and st.value.func.value.id == R \
+                and st.value.func.attr in ("append", "add", "update", "extend", "setdefault", "insert"):
+            return True
+        return False
+
+    def mark(body: list, R: str, flag: str) -> int:
+        k, n = 0, 0
+        while k < len(body):
+            st = body[k]
+            if grows(st, R):
+                a = ast.Assign([ast.Name(flag, ast.Store())], ast.Constant(True))
+                ast.copy_location(a, st)
+                ast.fix_missing_locations(a)
+                body.insert(k + 1, a)
+                k += 1
+                n += 1
+            elif not isinstance(st, (ast.FunctionDef, ast.ClassDef)):
+                for fld in ("body", "orelse", "finalbody"):
+                    sub = getattr(st, fld, None)
+                    if isinstance(sub, list) and sub and isinstance(sub[0], ast.stmt):
+                        n += mark(sub, R, flag)
+                for h in getattr(st, "handlers", []) or []:
+                    n += mark(h.body, R, flag)
+            k += 1
+        return n
+
+    def block(body: list) -> None:
+        nonlocal count
+        for i, st in enumerate(body):
+            if isinstance(st, ast.While) and isinstance(st.test, ast.Constant) and st.test.value is True and not st.orelse \
+                    and len(st.body) >= 3:
+                first, last = st.body[0], st.body[-1]
+                ok = isinstance(first, ast.Assign) and len(first.targets) == 1 and isinstance(first.targets[0], ast.Name) \
+                    and isinstance(first.value, ast.Call) and isinstance(first.value.func, ast.Name) and first.value.func.id == "len" \
+                    and len(first.value.args) == 1 and isinstance(first.value.args[0], ast.Name)
+                if ok:
+                    n0, R = first.targets[0].id, first.value.args[0].id
+                    t = last.test if isinstance(last, ast.If) and not last.orelse and len(last.body) == 1 \
+                        and isinstance(last.body[0], ast.Break) else None
+                    same = isinstance(t, ast.Compare) and len(t.ops) == 1 and isinstance(t.ops[0], (ast.Eq, ast.LtE, ast.GtE)) and (
+                        {ast.unparse(t.left), ast.unparse(t.comparators[0])} == {f"len({R})", n0})
+                    mid = st.body[1:-1]
+                    others = any(isinstance(y, ast.Name) and y.id == n0 for m in mid for y in ast.walk(m))
+                    brk = any(isinstance(y, ast.Break) for m in mid if not isinstance(m, (ast.For, ast.While)) for y in ast.walk(m)
+                              if True) and any(isinstance(m, ast.Break) for m in mid)
+                    shrinks = any(isinstance(y, ast.Call) and isinstance(y.func, ast.Attribute) and isinstance(y.func.value, ast.Name)
+                                  and y.func.value.id == R and y.func.attr in ("pop", "remove", "clear", "discard", "popitem")
+                                  for m in mid for y in ast.walk(m)) or any(
+                        isinstance(y, ast.Delete) for m in mid for y in ast.walk(m))
+                    if same and not others and not brk and not shrinks:
+                        flag = f"again__s{count + 1}"
+                        if mark(mid, R, flag):
+                            count += 1
+                            init = ast.Assign([ast.Name(flag, ast.Store())], ast.Constant(True))
+                            reset = ast.Assign([ast.Name(flag, ast.Store())], ast.Constant(False))
+                            st.test = ast.Name(flag, ast.Load())
+                            st.body = [reset] + mid
+                            for x in (init, reset, st.test):
+                                ast.copy_location(x, first)
+                            body.insert(i, init)
+                            ast.fix_missing_locations(st)
+                            ast.fix_missing_locations(init)
+                            block(body)       # indices moved: start over on this block
+                            return
+            if not isinstance(st, (ast.FunctionDef, ast.ClassDef)):
+                for fld in ("body", "orelse", "finalbody"):
+                    sub = getattr(st, fld, None)
+                    if isinstance(sub, list) and sub and isinstance(sub[0], ast.stmt):
+                        block(sub)
+                for h in getattr(st, "handlers", []) or []:
+                    block(h.body)
+    block(fn.body)
+    return count
 
 
 def _is_chain_from_iterable(e: ast.AST) -> ast.expr | None:
